@@ -74,7 +74,7 @@ impl SwiftField for Field59F {
     where
         Self: Sized,
     {
-        let lines: Vec<&str> = input.lines().collect();
+        let lines: Vec<&str> = input.split('\n').collect();
 
         if lines.is_empty() {
             return Err(ParseError::InvalidFormat {
@@ -120,7 +120,7 @@ impl SwiftField for Field59F {
             }
 
             let content = &line[2..];
-            if content.len() > 33 {
+            if content.is_empty() || content.len() > 33 {
                 return Err(ParseError::InvalidFormat {
                     message: format!("Field 59F line {} content exceeds 33 characters", line_num),
                 });
@@ -174,7 +174,7 @@ impl SwiftField for Field59A {
     where
         Self: Sized,
     {
-        let lines: Vec<&str> = input.lines().collect();
+        let lines: Vec<&str> = input.split('\n').collect();
 
         if lines.is_empty() {
             return Err(ParseError::InvalidFormat {
@@ -188,7 +188,7 @@ impl SwiftField for Field59A {
         // Check if first line is account (/...)
         if lines[0].starts_with('/') {
             let identifier = &lines[0][1..];
-            if identifier.len() <= 34 {
+            if !identifier.is_empty() && identifier.len() <= 34 {
                 parse_swift_chars(identifier, "Field 59A account")?;
                 account = Some(identifier.to_string());
                 bic_line_idx = 1;
@@ -235,7 +235,7 @@ impl SwiftField for Field59NoOption {
     where
         Self: Sized,
     {
-        let lines: Vec<&str> = input.lines().collect();
+        let lines: Vec<&str> = input.split('\n').collect();
 
         if lines.is_empty() {
             return Err(ParseError::InvalidFormat {
@@ -249,7 +249,7 @@ impl SwiftField for Field59NoOption {
         // Check for account
         if lines[0].starts_with('/') {
             let identifier = &lines[0][1..];
-            if identifier.len() <= 34 {
+            if !identifier.is_empty() && identifier.len() <= 34 {
                 parse_swift_chars(identifier, "Field 59 account")?;
                 account = Some(identifier.to_string());
                 start_idx = 1;
@@ -295,7 +295,7 @@ impl SwiftField for Field59 {
 
         // Try Option F (structured name/address with line numbers)
         // This is identifiable by the line number format (1/content, 2/content, etc.)
-        let lines: Vec<&str> = input.lines().collect();
+        let lines: Vec<&str> = input.split('\n').collect();
         if !lines.is_empty() {
             // Check if any line (after optional account) has line number format
             let check_start = if lines[0].starts_with('/') { 1 } else { 0 };
